@@ -3,7 +3,7 @@
 //! the real token sequence.
 //!
 //! Case line:
-//! `ll <start> <prods> <dfas> <opts> <depth> <tokens> <gstart> <gprods> <w> <K> <parflags> <texthex>`
+//! `ll <start> <prods> <dfas> <opts> <depth> <tokens> <gstart> <gprods> <w> <K> <parflags> <texthex> <tprods> <conflicts>`
 //! (words 1–6 are what the Lean handler reads; the rest lets `run` rebuild everything from the
 //! grammar with the real pipeline and lets the oracle judge `w` against the ORIGINAL grammar).
 use crate::cfgenc::{GenCfg, Gram, random_gram};
@@ -30,14 +30,14 @@ pub fn unhex(s: &str) -> Option<String> {
 }
 
 pub fn par_flags(o: &ParOpts) -> String {
-    [o.lalr, o.line_comment, o.block_comment, o.allow_unmatched, o.auto_newline_off, o.auto_ws_off]
+    [o.lalr, o.line_comment, o.block_comment, o.allow_unmatched, o.auto_newline_off, o.auto_ws_off, o.skip_x]
         .iter()
         .map(|b| if *b { '1' } else { '0' })
         .collect()
 }
 pub fn parse_par_flags(s: &str) -> Option<ParOpts> {
     let b: Vec<bool> = s.chars().map(|c| c == '1').collect();
-    if b.len() != 6 {
+    if b.len() != 7 {
         return None;
     }
     Some(ParOpts {
@@ -47,6 +47,7 @@ pub fn parse_par_flags(s: &str) -> Option<ParOpts> {
         allow_unmatched: b[3],
         auto_newline_off: b[4],
         auto_ws_off: b[5],
+        skip_x: b[6],
     })
 }
 
@@ -151,6 +152,7 @@ pub fn gen_cases(seed: u64, p: &GenParams, lalr: bool) -> Vec<String> {
             line_comment: p.styled,
             block_comment: p.styled,
             allow_unmatched: p.styled && rng.chance(1, 4),
+            skip_x: p.styled && rng.chance(1, 2),
             ..Default::default()
         };
         let par = par_text(&g, &po);
@@ -174,6 +176,7 @@ pub fn gen_cases(seed: u64, p: &GenParams, lalr: bool) -> Vec<String> {
             Some(t) => t,
             None => continue,
         };
+        let tprods = enc_tprods(b);
         let terms = g.terminals();
         let mut alpha = terms.clone();
         alpha.push(99);
@@ -197,7 +200,7 @@ pub fn gen_cases(seed: u64, p: &GenParams, lalr: bool) -> Vec<String> {
             };
             for o in opts_cycle(i, p.all_opts) {
                 out.push(format!(
-                    "{} {} {} {} {} {} {} {} {}",
+                    "{} {} {} {} {} {} {} {} {} {} {}",
                     if lalr { "lr" } else { "ll" },
                     tables,
                     enc_opts(&o),
@@ -206,7 +209,9 @@ pub fn gen_cases(seed: u64, p: &GenParams, lalr: bool) -> Vec<String> {
                     show_nats(w),
                     k,
                     par_flags(&po),
-                    hex(&text)
+                    hex(&text),
+                    tprods,
+                    b.lr_conflicts
                 ));
             }
         }
